@@ -763,7 +763,8 @@ class GriffeLoader:
         return [
             (imported_member, wildcard_obj.alias_lineno, wildcard_obj.alias_endlineno)
             for imported_member in module.members.values()
-            if imported_member.is_wildcard_exposed
+            # Wildcard imports that could not be expanded yet are placeholders, not objects to re-export.
+            if not (imported_member.is_alias and imported_member.wildcard) and imported_member.is_wildcard_exposed  # type: ignore[union-attr]
         ]
 
 
